@@ -39,6 +39,9 @@ package signature
 //@ func (*SignRequest).WithContext(r, ctx)
 //@   requires r != nil && ctx != nil
 //@   ensures [copy] result != nil && fresh(result) && result.ctx == ctx && result.Payload == r.Payload && result.Signer == r.Signer && result.SigningTime == r.SigningTime && result.Expiry == r.Expiry && result.SigningScheme == r.SigningScheme && result.SigningAgent == r.SigningAgent && result.Timestamper == r.Timestamper && result.TSARootCAs == r.TSARootCAs && result.ExtendedSignedAttributes == r.ExtendedSignedAttributes
+// every field but the context is carried over (the field list is taken from the struct type: C15 depends on the TSA
+// revocation validator surviving the copy, C08/C16 on all the others)
+//@   ensures [copy-all-fields] eqexcept(result, r, ctx)
 
 // ---- algorithm.go
 //@ func ExtractKeySpec(signingCert)
